@@ -240,8 +240,10 @@ def diag_definite(prog):
 
 # ----------------------------------------------------------------------------------------- search
 
-SEEDED = ("KMeansL1L2[L1]", "KMeansL1L2[L2]", "PermutationReciprocalTransformer[closest=False]",
-          "PermutationReciprocalTransformer[closest=True]", "PiecewiseClassifier")
+SEEDED = ("KMeansL1L2[L1]", "KMeansL1L2[L2]", "KMeansL1L2[L1,init-array]",
+          "PermutationReciprocalTransformer[closest=False]", "PermutationReciprocalTransformer[closest=True]",
+          "PermutationReciprocalTransformer[random_state=0]", "PiecewiseClassifier",
+          "PiecewiseClassifier[random_state=0]")
 
 
 def search(ctx, hints):
